@@ -271,3 +271,26 @@ func debugRepo() string {
 	}
 	return "/repo"
 }
+
+func init() {
+	debugCmds["gen-baseline"] = func(args []string) {
+		p, err := loadProg(debugRepo(), "")
+		if err != nil {
+			fmt.Println(err)
+			os.Exit(2)
+		}
+		var names []string
+		for _, pk := range p.SSA.AllPackages() {
+			if pk.Pkg == nil || !strings.HasPrefix(pk.Pkg.Path(), modPath) {
+				continue
+			}
+			for _, f := range pkgFunctions(p, pk.Pkg.Path()) {
+				if f.Parent() == nil {
+					names = append(names, funcName(f))
+				}
+			}
+		}
+		sort.Strings(names)
+		fmt.Println(strings.Join(names, "\n"))
+	}
+}
